@@ -165,13 +165,14 @@ def request_lines(slot, via, src, stack, manifest=True, again=False, gc=None):
     return L
 
 
-def setup_lines(via):
-    L = ["NEW", f"VFILE {hx('lib.libsonnet')} {hx(LIB)}"]
+def setup_lines(via, lib=None):
+    lib = LIB if lib is None else lib
+    L = ["NEW", f"VFILE {hx('lib.libsonnet')} {hx(lib)}"]
     L.append(f"STRTHUNK 900 {hx('ext-string')}")
     L.append(f"EXTVAR {hx('e')} 900")
     L.append(f"LOAD 901 {hx('<ext:c>')} {hx('{k: 1 + 1}')} 1")
     L.append(f"EXTVAR {hx('c')} 901")
-    L.append(f"LOAD 902 {hx('lib-as-ext')} {hx(LIB)} 1")
+    L.append(f"LOAD 902 {hx('lib-as-ext')} {hx(lib)} 1")
     L.append(f"EXTVAR {hx('lib')} 902")
     return L
 
@@ -191,9 +192,11 @@ def reduce_rec(r):
     return d
 
 
-def run_history(agg, srv, srv2, hist, via):
+def run_history(agg, srv, srv2, hist, via, lib=None, reqs=None):
     """hist: list of (req_index, stack, manifest, again, gc).  Returns True if decidable."""
-    shared = setup_lines(via)
+    REQS = globals()["REQS"] if reqs is None else reqs
+    nsetup = len(setup_lines(via, lib))
+    shared = setup_lines(via, lib)
     offsets = []
     for i, (ri, stack, mani, again, gc) in enumerate(hist):
         lines = request_lines(i, via, REQS[ri][1], stack, mani, again, gc)
@@ -206,12 +209,12 @@ def run_history(agg, srv, srv2, hist, via):
         if e.kind in ("timeout", "oom"):
             agg.inconc(e.kind)
             return False
-        agg.violation({"kind": "crash_in_shared_state"}, {"history": describe(hist), "crash": e.detail[-300:]}, {"script": shared})
+        agg.violation({"kind": "crash_in_shared_state"}, {"history": describe(hist, REQS), "crash": e.detail[-300:]}, {"script": shared})
         return False
     for r in recs:
         if r.status == "PANIC":
             agg.violation({"kind": "panic_in_shared_state", "msg": re.sub(r"[0-9]+", "N", r.s("msg") or "")[:80]},
-                          {"history": describe(hist), "panic": r.s("msg"), "loc": r.s("loc")}, {"script": shared})
+                          {"history": describe(hist, REQS), "panic": r.s("msg"), "loc": r.s("loc")}, {"script": shared})
             return False
         if r.status == "HERR":
             raise common.Broken("harness error: " + (r.s("msg") or ""))
@@ -221,7 +224,7 @@ def run_history(agg, srv, srv2, hist, via):
         if [r.raw for r in recs] != [r.raw for r in recs2]:
             k = next(i for i, (a, b) in enumerate(zip(recs, recs2)) if a.raw != b.raw)
             agg.violation({"kind": "nondeterministic_across_processes"},
-                          {"history": describe(hist), "op": shared[k - 0][:200] if k < len(shared) else "?",
+                          {"history": describe(hist, REQS), "op": shared[k - 0][:200] if k < len(shared) else "?",
                            "a": recs[k].raw[:300], "b": recs2[k].raw[:300]}, {"script": shared})
         agg.count("determinism_replays")
     except Crashed:
@@ -231,7 +234,7 @@ def run_history(agg, srv, srv2, hist, via):
     for i, (ri, stack, mani, again, gc) in enumerate(hist):
         if stack is not None:
             stack_in_effect = stack
-        fresh = setup_lines(via) + request_lines(i, via, REQS[ri][1], stack_in_effect, mani, False, None)
+        fresh = setup_lines(via, lib) + request_lines(i, via, REQS[ri][1], stack_in_effect, mani, False, None)
         agg.evaluations += 1
         try:
             frecs = srv.request(fresh, timeout=120)
@@ -242,8 +245,8 @@ def run_history(agg, srv, srv2, hist, via):
         got = recs[off:off + n]
         # align: strip the STACK op records from both
         g = [r for r, l in zip(got, shared[off:off + n]) if not l.startswith(("STACK", "GC"))]
-        flines = fresh[len(setup_lines(via)):]
-        f = [r for r, l in zip(frecs[len(setup_lines(via)):], flines) if not l.startswith(("STACK", "GC"))]
+        flines = fresh[nsetup:]
+        f = [r for r, l in zip(frecs[nsetup:], flines) if not l.startswith(("STACK", "GC"))]
         names = [l.split(" ")[0] for l in shared[off:off + n] if not l.startswith(("STACK", "GC"))]
         for j, fr in enumerate(f):
             gr = g[j]
@@ -256,7 +259,7 @@ def run_history(agg, srv, srv2, hist, via):
             if reduce_rec(gr) != reduce_rec(fr):
                 agg.violation({"kind": "answer_depends_on_history", "request": REQS[ri][0], "op": names[j],
                                "shared": gr.get("kind", gr.status), "fresh": fr.get("kind", fr.status)},
-                              {"history": describe(hist), "position": i, "request": REQS[ri][1],
+                              {"history": describe(hist, REQS), "position": i, "request": REQS[ri][1], "library": (lib or "")[:1200],
                                "stack_in_effect": stack_in_effect, "shared_state_answer": reduce_rec(gr),
                                "fresh_state_answer": reduce_rec(fr)}, {"script": shared})
                 break
@@ -268,14 +271,19 @@ def run_history(agg, srv, srv2, hist, via):
             if a != b:
                 agg.violation({"kind": "reevaluation_differs", "request": REQS[ri][0],
                                "first": first.get("kind", first.status), "second": second.get("kind", second.status)},
-                              {"history": describe(hist), "position": i, "request": REQS[ri][1], "first": a, "second": b},
+                              {"history": describe(hist, REQS), "position": i, "request": REQS[ri][1], "first": a, "second": b,
+                               "library": (lib or "")[:1200]},
                               {"script": shared})
-        agg.add("request_outcomes", (REQS[ri][0], g[1].get("kind", g[1].status) if len(g) > 1 else g[0].status))
-    agg.nontrivial.add(common.h64(via, repr(hist)))
+        if reqs is None:
+            agg.add("request_outcomes", (REQS[ri][0], g[1].get("kind", g[1].status) if len(g) > 1 else g[0].status))
+        else:
+            agg.count("generated_lib_outcome:" + (g[1].get("kind", g[1].status) if len(g) > 1 else g[0].status))
+    agg.nontrivial.add(common.h64(via, repr(hist), lib or ""))
     return True
 
 
-def describe(hist):
+def describe(hist, REQS=None):
+    REQS = globals()["REQS"] if REQS is None else REQS
     return [{"req": REQS[ri][1], "stack": st, "manifest": m, "again": a, "gc": g} for (ri, st, m, a, g) in hist]
 
 
@@ -303,6 +311,46 @@ def shard(args):
             run_history(agg, srv, srv2, h, via)
             if len(agg.samples) < 2:
                 agg.sample({"via": via, "history": describe(h)})
+    finally:
+        srv.close()
+        srv2.close()
+    return agg
+
+
+# requests against a GENERATED library object: observations, derivations (+, +:, objectRemoveKey, mergePatch, ...) and
+# observations of the derived objects, in any order
+GEN_REQS = [(src, src) for src in [
+    "L", "L.a", "L.b", "L.c", "L.o", "L.s", "L.l", "std.objectFields(L)", "std.objectFieldsAll(L)", "L == L", "std.toString(L)",
+    "std.length(L)", "L + {}", "{} + L", "L {a: 100}", "(L {a: 100}).b", "(L {a: 100}).c", "(L {b: -7}).a", "L {a+: 1}", "L {b:: 1}",
+    "L {zz: self.a}", "(L {zz: self.a}).zz", "L {c: super.c}", "L + L", "(L + L).a", "L.o + {}", "L {o+: {q: 1}}",
+    "std.objectRemoveKey(L, 'a')", "std.objectRemoveKey(L, 'b').a", "std.objectRemoveKey(L, 'a').b", "std.objectRemoveKey(L, 'c') + {c: 1}",
+    "std.mergePatch(L, {a: null})", "std.mergePatch(L, {o: {q: 1}})", "std.mapWithKey(function(k, v) v, L)", "std.objectValues(L)",
+    "std.objectKeysValues(L)", "std.prune(L)", "std.get(L, 'a', 0)", "std.objectHas(L, 'b')", "std.objectHasAll(L, 's')", "'a' in L",
+    "{[k]: L[k] for k in std.objectFields(L)}", "[L[k] for k in std.objectFields(L)]", "L {assert self.a >= 0 : 'ra'}",
+    "(L {assert self.a >= 0 : 'ra'}).b", "std.foldl(function(acc, k) acc + {[k]: L[k]}, std.objectFields(L), {})",
+    "std.manifestJsonEx(L, ' ')", "std.manifestYamlDoc(L)", "[L.a, L.b, L.c]", "L.m(1)", "L {a: error 'ov'}.b", "std.objectFields(L {n1: 1})",
+    "local M = L {a: 5}; [M.a, M.b]", "local M = L; M == L", "std.assertEqual(L, L)", "std.length(std.objectFields(L + {extra: 1}))",
+]]
+
+
+def generated_shard(args):
+    seed, n = args
+    import genast
+    import genprog
+    rng = random.Random(seed)
+    agg = Agg()
+    srv = Server()
+    srv2 = Server()
+    try:
+        for _ in range(n):
+            g = genprog.Gen(rng, depth=rng.choice([2, 3, 3]), obj_heavy=True, allow_remove_key=True)
+            lib = genast.render(g.O(g.depth, [], False), "min")[0].decode("utf-8")
+            for _h in range(3):
+                h = [(rng.randrange(len(GEN_REQS)), rng.choice([None, None, 2000, 60]), rng.random() < 0.85, rng.random() < 0.25,
+                      rng.random() < 0.2) for _ in range(rng.randint(2, 6))]
+                run_history(agg, srv, srv2, h, rng.choice(["import", "ext"]), lib=lib, reqs=GEN_REQS)
+            if len(agg.samples) < 3:
+                agg.sample({"generated_library": lib[:300]})
     finally:
         srv.close()
         srv2.close()
@@ -337,13 +385,19 @@ def run(tier, seed):
     shards = [(seed * 401 + i, n // 32, perms[i::32]) for i in range(32)]
     for a in common.pmap(shard, shards):
         total.merge(a)
+    ng = 640 if quick else 40000
+    for a in common.pmap(generated_shard, [(seed * 769 + i, ng // 32) for i in range(32)]):
+        total.merge(a)
     rule = (f"histories of 1..8 requests drawn from {len(REQS)} request programs that share one library value (through "
             "an import and through an ext var) on one long-lived Program: values, explicit errors, assertion failures, "
             "stack overflows whose occurrence depends on the max_stack in effect, cycles, lazily failing elements, "
-            "re-evaluation of the same thunk, explicit gc and set_max_stack between requests; all permutations of 5 "
-            "four-request pools built around failure-then-reuse shapes; each response compared with the response of "
-            "the same request on a fresh state (value walk, manifest text, error kind/message/in-source spans, trace "
-            "messages, stack-trace length); every history replayed in a second process for byte-identical records. "
+            "re-evaluation of the same thunk, explicit gc and set_max_stack between requests; all permutations of 9 "
+            "four-request pools built around failure-then-reuse shapes; plus GENERATED library objects (typed "
+            "generator: inheritance, asserts, hidden fields, object locals, self/super) queried by histories drawn "
+            f"from {len(GEN_REQS)} observation/derivation requests (+, +:, objectRemoveKey, mergePatch, mapWithKey, "
+            "comprehensions over the fields, ...); each response compared with the response of "
+            "the same request on a fresh state (value walk, manifest text, error kind/message/in-source spans, stack-trace "
+            "length; std.trace output is not compared); every history replayed in a second process for byte-identical records. "
             "distinct_nontrivial = distinct histories decided.")
     return common.finish(PROP, tier, seed, total, rule, t0,
                          assumptions=["'fresh state' = same library, ext vars and max_stack in effect, no earlier requests"])
